@@ -55,6 +55,24 @@ check('C05', 'DESIGN.md 4/C05', MB,
       'log and per-transport ACK frames compared with the documented rule.',
       TB)
 
+check('C04', 'DESIGN.md 4/C04', MB,
+      'Connect/refuse/disconnect histories over always_connect x namespace '
+      'configurations x handler styles on both servers against a lifecycle '
+      'model (handler counts, answer frames, refusal payloads, fresh sids, '
+      'exactly-one disconnect with the right reason, no delivery after the '
+      'end); asyncio interleavings of concurrent terminating causes are '
+      'enumerated on the deterministic loop.', TB)
+check('C06', 'DESIGN.md 4/C06', MB,
+      'Histories of emit-with-callback / call() and ACKs carrying right, '
+      'used, never-issued and foreign ids, with disconnects and reconnects; '
+      'model of outstanding callbacks per sid; call() under generated orders '
+      'of ACK / timeout / disconnect (virtual time, pumping wait primitive).',
+      TB)
+check('C16', 'DESIGN.md 4/C16', MB,
+      'Histories of save/get/session() blocks with mutations, disconnects '
+      'and reconnects on the same or a new transport, both servers, against '
+      'a per-connection dict model.', TB)
+
 NOT_BUILT = {}
 
 
